@@ -88,8 +88,9 @@ class FragReturn(Exception):
         self.value = value
 
 
-def run_fragment(body: Sequence[ast.stmt], names: Dict[str, Any], attrs: Optional[Dict[str, Any]] = None, max_steps: int = 20000, funcs: Optional[Dict[str, ast.FunctionDef]] = None, materialise: bool = False, ctors: Optional[Dict[str, Any]] = None, attrs_live: bool = False) -> Dict[str, Any]:
-    env = dict(names)
+def run_fragment(body: Sequence[ast.stmt], names: Dict[str, Any], attrs: Optional[Dict[str, Any]] = None, max_steps: int = 20000, funcs: Optional[Dict[str, ast.FunctionDef]] = None, materialise: bool = False, ctors: Optional[Dict[str, Any]] = None, attrs_live: bool = False, share_env: bool = False) -> Dict[str, Any]:
+    # share_env: the caller's dictionary itself is the environment (closures: the caller reads the final bindings back)
+    env = names if share_env else dict(names)
     # attrs_live: stores into attributes are made in the caller's dict (the object state after the fragment)
     attrs = attrs if (attrs_live and attrs is not None) else dict(attrs or {})
     steps = [0]
@@ -127,6 +128,7 @@ def run_fragment(body: Sequence[ast.stmt], names: Dict[str, Any], attrs: Optiona
 
     def fold(e):
         f = Folder(env, attrs)
+        f.names = env  # the fragment's own environment: bindings made while folding (walrus, closures over mutated variables) stay visible
         f.attrs = attrs  # the fragment's own dict: attribute stores made by a followed helper are seen by later statements
         f.funcs = dict(funcs or {})
         f.materialise = materialise
@@ -496,6 +498,23 @@ def run_fragment(body: Sequence[ast.stmt], names: Dict[str, Any], attrs: Optiona
                     except TypeError as exc:
                         raise Unfoldable(str(exc))
                     env[c.func.value.id] = cur_
+                elif isinstance(c, ast.Call):
+                    # any other call made for its effect
+                    from .astutil import attr_chain as _ch2
+
+                    fn_ = c.func
+                    if (isinstance(fn_, ast.Name) and (isinstance(env.get(fn_.id), (ast.FunctionDef, ast.Lambda)) or fn_.id in (funcs or {}))) or (isinstance(fn_, ast.Attribute) and _ch2(fn_) in (funcs or {})):
+                        fold(c)  # a followed function: its effects on attributes / enclosing variables are made by the call
+                    elif isinstance(fn_, ast.Attribute):
+                        base_ = fn_.value
+                        while isinstance(base_, (ast.Subscript, ast.Attribute)) and not (isinstance(base_, ast.Attribute) and _ch2(base_) in attrs):
+                            base_ = base_.value
+                        inplace_ = fn_.attr.endswith("_") and not fn_.attr.startswith("__") or fn_.attr in ("append", "extend", "insert", "pop", "remove", "add", "update", "clear", "sort", "reverse", "discard", "setdefault")
+                        if inplace_ and isinstance(base_, ast.Name) and base_.id in env and base_.id not in ("torch", "np", "math", "warnings", "logging"):
+                            why[base_.id] = f"`{ast.unparse(st)[:60]}`: in-place method whose effect is not modelled"
+                            env.pop(base_.id, None)
+                        elif inplace_ and isinstance(base_, ast.Attribute) and _ch2(base_) in attrs:
+                            attrs.pop(_ch2(base_), None)
                 continue
             if isinstance(st, (ast.Pass, ast.Import, ast.ImportFrom, ast.Global, ast.Nonlocal)):
                 continue
